@@ -1,3 +1,163 @@
+// Package simos is the filesystem seam: the weaver redirects os.X calls of concurrency/dir
+// to simos.X. Each call is a numbered step at which the simulator can inject a crash (panic
+// unwound by the harness; only the disk survives), an error, or a torn write.
 package simos
 
-func Active() bool { return false }
+import (
+	"io/fs"
+	"os"
+)
+
+// Active exists so that woven files always reference the package.
+func Active() bool { return hook != nil }
+
+// Hook is consulted before and after every filesystem call.
+type Hook interface {
+	// Before may return an error to inject instead of performing the call, or panic to crash.
+	Before(op string, args ...string) error
+	// After is called once the real call has been made (crash points "after step k").
+	After(op string, err error)
+}
+
+var hook Hook
+
+// SetHook installs h (nil = pass-through). One simulated run at a time per process.
+func SetHook(h Hook) { hook = h }
+
+func before(op string, args ...string) error {
+	if hook == nil {
+		return nil
+	}
+	return hook.Before(op, args...)
+}
+
+func after(op string, err error) {
+	if hook != nil {
+		hook.After(op, err)
+	}
+}
+
+func MkdirAll(path string, perm fs.FileMode) error {
+	if err := before("MkdirAll", path); err != nil {
+		return err
+	}
+	err := os.MkdirAll(path, perm)
+	after("MkdirAll", err)
+	return err
+}
+
+func Mkdir(path string, perm fs.FileMode) error {
+	if err := before("Mkdir", path); err != nil {
+		return err
+	}
+	err := os.Mkdir(path, perm)
+	after("Mkdir", err)
+	return err
+}
+
+// TornWrite, when returned by Hook.Before for WriteFile, makes the call write only a prefix
+// of the data and then crash.
+type TornWrite struct{ N int }
+
+func (TornWrite) Error() string { return "torn write" }
+
+// Crash is the panic value used to simulate process death.
+type Crash struct{ At string }
+
+func WriteFile(name string, data []byte, perm fs.FileMode) error {
+	if err := before("WriteFile", name); err != nil {
+		if tw, ok := err.(TornWrite); ok {
+			n := tw.N
+			if n > len(data) {
+				n = len(data)
+			}
+			os.WriteFile(name, data[:n], perm)
+			panic(Crash{At: "torn WriteFile " + name})
+		}
+		return err
+	}
+	err := os.WriteFile(name, data, perm)
+	after("WriteFile", err)
+	return err
+}
+
+func Symlink(oldname, newname string) error {
+	if err := before("Symlink", oldname, newname); err != nil {
+		return err
+	}
+	err := os.Symlink(oldname, newname)
+	after("Symlink", err)
+	return err
+}
+
+func Rename(oldpath, newpath string) error {
+	if err := before("Rename", oldpath, newpath); err != nil {
+		return err
+	}
+	err := os.Rename(oldpath, newpath)
+	after("Rename", err)
+	return err
+}
+
+func RemoveAll(path string) error {
+	if err := before("RemoveAll", path); err != nil {
+		return err
+	}
+	err := os.RemoveAll(path)
+	after("RemoveAll", err)
+	return err
+}
+
+func Remove(path string) error {
+	if err := before("Remove", path); err != nil {
+		return err
+	}
+	err := os.Remove(path)
+	after("Remove", err)
+	return err
+}
+
+func Readlink(name string) (string, error) {
+	if err := before("Readlink", name); err != nil {
+		return "", err
+	}
+	s, err := os.Readlink(name)
+	after("Readlink", err)
+	return s, err
+}
+
+func ReadDir(name string) ([]os.DirEntry, error) {
+	if err := before("ReadDir", name); err != nil {
+		return nil, err
+	}
+	d, err := os.ReadDir(name)
+	after("ReadDir", err)
+	return d, err
+}
+
+func Stat(name string) (os.FileInfo, error) {
+	if err := before("Stat", name); err != nil {
+		return nil, err
+	}
+	fi, err := os.Stat(name)
+	after("Stat", err)
+	return fi, err
+}
+
+func Lstat(name string) (os.FileInfo, error) {
+	if err := before("Lstat", name); err != nil {
+		return nil, err
+	}
+	fi, err := os.Lstat(name)
+	after("Lstat", err)
+	return fi, err
+}
+
+func ReadFile(name string) ([]byte, error) {
+	if err := before("ReadFile", name); err != nil {
+		return nil, err
+	}
+	b, err := os.ReadFile(name)
+	after("ReadFile", err)
+	return b, err
+}
